@@ -86,7 +86,8 @@ REQUIRED = {
 }
 REQUIRED_EVENTS = {'beam-calls-internal': 400, 'beam-calls-external': 400,
     'max-calls-internal': 200, 'tt-calls-internal': 50,
-    'tt-shifted-square-observed': 100, 'beam-l2r': 200, 'beam-r2l': 200}
+    'tt-shifted-square-observed': 100, 'beam-l2r': 200, 'beam-r2l': 200,
+    'cross-tensor': 10, 'qtt-fine-accuracy-tiny-tensor': 10}
 ASSUMPTIONS = [
     'numpy longdouble (64-bit mantissa) contraction is the dense reference',
     'value tolerance 10*(sum ranks + d)*2^-52*absbound; exactness tolerance '
@@ -118,7 +119,7 @@ MAXN = 6000          # dense references only up to this many elements
 TT_FAMILIES = ['generic', 'generic', 'int', 'int', 'const', 'const2', 'pos',
     'neg', 'shift', 'shift', 'rank1', 'rank1', 'rank1', 'rank1int',
     'rank1pad', 'overrank', 'deficient', 'mode1', 'd2', 'scaled', 'zero',
-    'tiny', 'huge', 'intdtype', 'intdtype', 'needle', 'needle']
+    'tiny', 'huge', 'intdtype', 'intdtype', 'needle', 'needle', 'cross']
 QTT_FAMILIES = ['generic', 'generic', 'int', 'const', 'pos', 'shift',
     'rank1', 'rank1', 'rank1int', 'overrank', 'zero', 'smooth', 'smooth']
 FUNC_FAMILIES = ['generic', 'generic', 'generic', 'int', 'decay', 'mode1',
@@ -349,6 +350,28 @@ def make_tensor(rng, family, maxN, n=None):
         Y = gen.cores(rng, n, r, 'normal')
         Y[int(rng.integers(d))] *= 0.
         meta['rank1'] = True
+    elif family == 'cross':
+        # more than 100 partial indices in both sweep directions, and the
+        # second extreme where the squared shifted tensor of optima_tt has
+        # its WEAKEST slices: a flat background b, a line of ones along the
+        # last axis and one along the first axis, the value -0.5 where they
+        # cross (a search that is exhaustive for k >= N must still find it)
+        n = [[11, 11, 11], [12, 12, 12], [6, 6, 6, 6], [5, 6, 7, 5],
+            [13, 10, 11]][int(rng.integers(5))]
+        d = len(n)
+        pt = [int(rng.integers(x)) for x in n]
+        unit = lambda k: np.eye(n[k])[pt[k]].reshape(1, -1, 1)
+        one = lambda k: np.ones((1, n[k], 1))
+        L1 = [unit(k) if k < d - 1 else one(k) for k in range(d)]
+        L2 = [unit(k) if k > 0 else one(k) for k in range(d)]
+        X_ = [unit(k) for k in range(d)]
+        X_[0] = X_[0] * -2.5
+        bg = [rng.uniform(0.5, 1., size=(1, n[k], 1)) for k in range(d)]
+        bg[0] *= float(rng.choice([0., 1e-3, 0.05]))
+        Y = tt_add(tt_add(L1, L2), tt_add(X_, bg))
+        if rng.random() < 0.5:
+            Y[int(rng.integers(d))] *= -1.
+        meta['rep'] = f'two unit lines crossing at {pt} with value -0.5'
     else:
         raise ValueError(family)
     Y = [np.ascontiguousarray(G, dtype=float) for G in Y]
@@ -808,6 +831,9 @@ def case_tt(case, ctx, teneva, rng):
     pruned, full = k_list(rng, N)
     if case['family'] == 'needle':
         pruned, full = [1, 2, 5], []
+    if case['family'] == 'cross':
+        pruned, full = [2], [N, N + int(rng.integers(1, 500))]
+        ctx.event('cross-tensor')
     judged_exact = False
     first = {}
     for k in pruned + full:
@@ -1011,12 +1037,29 @@ def case_qtt(case, ctx, teneva, rng):
             i_max=np.asarray(res[2]))
         ctx.check('qtt-order', bool(res[1] <= res[3]), 'optima_qtt(lossy): '
             f'reported minimum {res[1]!r} exceeds reported maximum {res[3]!r}')
-    for k in pruned[:2] + pruned[3:] + full:
+    plans = [(Y, k, ()) for k in pruned[:2] + pruned[3:] + full]
+    # the requested accuracy e is the caller's: a tiny tensor whose magnitude
+    # sits in one core (as after orthogonalize / truncate), searched with an
+    # accuracy well below its entries, is quantised as exactly as any other
+    if fam in ('generic', 'int', 'pos', 'shift', 'overrank') and inf.usable \
+            and inf.M > 0 and full and rng.random() < 0.6:
+        sig = 10.0 ** float(rng.uniform(-25, -13))
+        Yt = [np.asarray(G, dtype=float) / (np.linalg.norm(G) or 1.)
+            for G in Y]
+        jt = int(rng.integers(d))
+        Yt[jt] = Yt[jt] * sig
+        plans.append((Yt, full[0], (sig * 1e-12, 100)))
+        ctx.event('qtt-fine-accuracy-tiny-tensor')
+    Y0_, inf0_ = Y, inf
+    for Y, k, eargs in plans:
+        inf = tinfo(Y)
+        if not inf.usable:
+            continue
         fr = {'max': [], 'tt': []}
         ST.frames.append(fr)
         ST.depth += 1           # calls below are internal to optima_qtt
         try:
-            res = teneva.optima_qtt(Y, k)
+            res = teneva.optima_qtt(Y, k, *eargs)
         finally:
             ST.depth -= 1
             ST.frames.pop()
@@ -1101,6 +1144,7 @@ def case_qtt(case, ctx, teneva, rng):
         if not first:
             first = {'k': k, 'optima_qtt': res, 'inner_qtt_result': rq,
                 'qtt_ranks': zinf.r, 'qtt_deviation': dq}
+    Y, inf = Y0_, inf0_
     if len(ctx.samples) < 3:
         ctx.sample({'case': case, 'shape': n, 'ranks': inf.r, 'q': q,
             'dense_min_max': [inf.tmin, inf.tmax], 'observed': first})
